@@ -103,3 +103,81 @@ def parser_yields_partial_tree(grammar, tree) -> bool:
     for _ in _ask_parser(grammar, tree, ParsingMode.INCOMPLETE):
         return True
     return False
+
+
+class SpineError(Exception):
+    """the partial tree does not fit the grammar the way ContinuingNodeVisitor reads it"""
+
+
+def spine_of(tree, rules: dict) -> list:
+    """right spine of a partial derivation tree with control-flow nodes (what the prefix parse hands to
+    `PathFinder.forecast`), as a position of the model (lean/Model/Forecast.lean `Pos`, JSON):
+    ["msg"] | ["nt",p] | ["alt",i,p] | ["cat",i,p] | ["rep",k,p] | ["rep0"].
+    Mirrors how ContinuingNodeVisitor descends: the LAST child at every level, `len(children)` for the number of
+    iterations, the first alternative that fits (by controlflow id / symbol; a message also by its parties).  `rules`: {name: IR node JSON} (grammar_to_json)."""
+
+    def cf(node_id: str, trees: list):
+        if len(trees) != 1:
+            raise SpineError("controlflow entry with %d trees" % len(trees))
+        t = trees[0]
+        if not t.symbol.is_non_terminal or t.symbol.name() != "<__" + node_id + ">":
+            raise SpineError("controlflow symbol mismatch")
+        return t.children
+
+    def sp(node: list, trees: list) -> list:
+        k = node[0]
+        if k == "nt":
+            if not trees:
+                raise SpineError("nonterminal without a tree")
+            t = trees[0]
+            if not t.symbol.is_non_terminal:
+                raise SpineError("terminal where a nonterminal is expected")
+            name = t.symbol.name()
+            if node[2] is not None:                       # a message
+                if name != node[1] and name != "<_packet_" + node[1][1:]:
+                    raise SpineError("message symbol mismatch")
+                if t.sender is not None and (t.sender != node[2] or t.recipient != node[3]):
+                    # alternatives that are bare messages of one type (`<A:B:m> | <A:C:m>`) are told apart by the
+                    # parties the tree node carries (the visitor takes the first; what follows is the same)
+                    raise SpineError("message parties mismatch")
+                return ["msg"]
+            if name != node[1]:
+                raise SpineError("symbol mismatch")
+            if node[1] not in rules:
+                raise SpineError("no rule")
+            return ["nt", sp(rules[node[1]], list(t.children))]
+        if k == "cat":
+            kids = cf(node[1], trees)
+            if not kids or len(kids) > len(node[2]):
+                raise SpineError("concatenation with %d children" % len(kids))
+            i = len(kids) - 1
+            return ["cat", i, sp(node[2][i], [kids[i]])]
+        if k == "alt":
+            kids = cf(node[1], trees)
+            if not kids:
+                raise SpineError("alternative without a child")
+            for i, alt in enumerate(node[2]):
+                try:
+                    return ["alt", i, sp(alt, [kids[0]])]
+                except SpineError:
+                    continue
+            raise SpineError("alternative mismatch")
+        if k == "rep":
+            kids = cf(node[1], trees)
+            if not kids:
+                return ["rep0"]
+            return ["rep", len(kids) - 1, sp(node[3], [kids[-1]])]
+        raise SpineError("terminal node at message level")
+
+    if not tree.children:
+        raise SpineError("start without children")
+    if "<start>" not in rules:
+        raise SpineError("no start rule")
+    return ["nt", sp(rules["<start>"], [tree.children[0]])]
+
+
+def options_of(res) -> list:
+    """the (sender, recipient, type) options of one ForecastingResult"""
+    return sorted({(pk.node.sender, pk.node.recipient, nt.name())
+                   for fnt in res.parties_to_packets.values() for nt, pk in fnt.nt_to_packet.items()},
+                  key=lambda x: (x[0], x[1] or "", x[2]))
